@@ -230,7 +230,7 @@ structure CS (j i : Nat) (r : Row) : Prop where
 
 variable {sc cl x y W}
 
-theorem cs_row00 (H : Hyp sc cl x y W) : CS sc cl x y W 0 0 (row00 cl x) := by
+theorem cs_row00 (H : Hyp sc cl x y W) : CS sc cl x y W 0 0 (row00 cl x y) := by
   have h0 : Wit sc cl x y .none 0 0 0 := wit_mono (wit_pre (Nat.zero_le _) (Nat.zero_le _)) (by simp [pre])
   refine ⟨jw_wit h0, jw_min H.W0 _ _ _, jw_min H.W0 _ _ _, ?_, ?_⟩
   · have := jw_ysuf (W := W) H (jw_wit h0) (Nat.zero_le _)
@@ -241,7 +241,7 @@ theorem cs_row00 (H : Hyp sc cl x y W) : CS sc cl x y W 0 0 (row00 cl x) := by
     · exact jw_min H.W0 _ _ _
 
 theorem cs_step0 (H : Hyp sc cl x y W) (i : Nat) (hi : i + 1 ≤ x.length) (r : Row)
-    (hr : CS sc cl x y W 0 i r) : CS sc cl x y W 0 (i + 1) (step0 sc cl x (i + 1) r) := by
+    (hr : CS sc cl x y W 0 i r) : CS sc cl x y W 0 (i + 1) (step0 sc cl x y (i + 1) r) := by
   rw [step0_eq]
   have hiv := jw_iv0 H i hi
   have hxp : JW sc cl x y W .none (i + 1) 0 cl.xp :=
@@ -352,16 +352,16 @@ structure PS (i : Nat) (p : PSt) : Prop where
 
 variable {sc cl x y W}
 
-theorem ps_post1Step (H : Hyp sc cl x y W) (col : List Row) (i : Nat) (hi : i ≤ x.length) (xm : Int)
+theorem ps_post1Step (H : Hyp sc cl x y W) (col : List Row) (i : Nat) (hi : i ≤ x.length) (p : PSt)
     (hc : CS sc cl x y W y.length i (col.getD i default))
-    (hxm : JW sc cl x y W .none x.length y.length xm) : PS sc cl x y W i (post1Step cl x col i xm) := by
+    (hxm : JW sc cl x y W .none x.length y.length p.xm) : PS sc cl x y W i (post1Step cl x col i p) := by
   rw [post1Step_eq]
   dsimp only
   by_cases hm : i = x.length
   · subst hm
     simp only [if_true]
     have h2 := jw_max hc.Sn hxm
-    have h3 := jw_max (jw_mono h2 (show max (col.getD x.length default).sn xm + cl.xs ≤ _ by have := H.xs; omega)) h2
+    have h3 := jw_max (jw_mono h2 (show max (col.getD x.length default).sn p.xm + cl.xs ≤ _ by have := H.xs; omega)) h2
     exact ⟨h3, h3⟩
   · simp only [if_neg hm]
     have hs1 := jw_max hc.Sn hc.S
@@ -418,7 +418,7 @@ theorem p2_all (H : Hyp sc cl x y W) : ∀ i, i ≤ x.length →
 /-- the reported score is junk or the value of a real alignment -/
 theorem score_jw (H : Hyp sc cl x y W) :
     JW sc cl x y W .none x.length y.length (fill sc cl x y).score := by
-  simp only [fill]
+  rw [fill_score]
   exact (p2_all H x.length (Nat.le_refl _)).Xm
 
 end
